@@ -12,6 +12,8 @@
 (*   List   ok, list, names, lens, kinds                (holder before the call)         *)
 (*   Condition name, sp                                 (an initial condition in the block) *)
 (*   Horizon place, h                                   (the user states the horizon)   *)
+(*   Trace  place ("inside" / "outside"), step          (solver.TraceStep = step)        *)
+(*   Steady                                             (initial steady state requested) *)
 (*   Solve  used, vs, ok, must, names, lens, kinds      (observed holder after the call; *)
 (*          used: the horizon the solver ended up with - conformance only, the property  *)
 (*          is judged against the STATED horizon; must: the replayed behaviour has a     *)
@@ -112,6 +114,12 @@ TraceNext ==
        \/ /\ e.ev = "Condition"
           /\ Condition(e.name, e.sp)
           /\ UNCHANGED verdict
+       \/ /\ e.ev = "Trace"
+          /\ SetTrace(e.place)
+          /\ UNCHANGED verdict
+       \/ /\ e.ev = "Steady"
+          /\ SetSteady
+          /\ UNCHANGED verdict
        \/ /\ e.ev = "Horizon"
           /\ StateHorizon(e.place, e.h)
           /\ UNCHANGED verdict
@@ -129,7 +137,7 @@ TraceNext ==
        \/ /\ e.ev = "End"
           /\ PrintT(<< "VERDICT", e.tid, verdict.kind \o ":" \o verdict.clause >>)
           /\ phase' = "build" /\ holder' = EmptyHolder /\ solved' = NotSolved
-          /\ table' = NoTable /\ stated' = Unstated /\ conds' = {} /\ hist' = << >>
+          /\ table' = NoTable /\ stated' = Unstated /\ conds' = {} /\ opts' = NoOpts /\ hist' = << >>
           /\ verdict' = Ok
 
 TraceSpec == TraceInit /\ [][TraceNext]_tvars
